@@ -90,6 +90,10 @@ def templates(tier, seed):
     for gi in range(80 if tier == "quick" else 1200):
         tds.append(dict(fam="groupgen", gseed=gi + 5000 * seed))
     # chains of reuse (an instance that is itself a reuse), computed template ids, templates reading $id
+    # templates placed through a transform (polygon, polyline, path), also at offsets that are zero or negative; classes of the
+    # reuse element are evaluated where the reuse element stands (before its own bindings apply)
+    for form in ("polygon", "polyline", "path", "class-rebinding", "class-rebinding-loop"):
+        tds.append(dict(fam="reuse-forms2", form=form))
     for form in ("chain-bind", "chain-bind3", "chain-bind-shape", "chain2", "chain2-group", "chain3", "computed-id", "computed-id-loop", "reads-id", "reads-id-class", "reads-id-shadow"):
         tds.append(dict(fam="reuse-forms", form=form))
     for form in ("prev-id", "prev-id-own-id", "prev-noid", "prev-then-ref"):
@@ -347,6 +351,23 @@ def build(td, wrong=False):
             wrapped = f"<defs>{tmpl}</defs>" if where == "defs" else tmpl
             d0 = "<svg>" + specs_leaf + scope + wrapped + "</g>" + "".join(reuse_doc) + "</svg>"
             d1 = "<svg>" + specs_leaf + scope + wrapped + "</g>" + "".join(twin_doc) + "</svg>"
+    elif fam == "reuse-forms2":
+        kw = alloc([(6, *S), (4, *S)])
+        kp = alloc([(30, *V), (-9, *V)])
+        W, H, X, Y = f"[[{kw}]]", f"[[{kw + 1}]]", f"[[{kp}]]", f"[[{kp + 1}]]"
+        form = td["form"]
+        if form in ("polygon", "polyline", "path"):
+            tm = {"polygon": '<polygon id="t" points="0 0 $w 0 3 $h"/>', "polyline": '<polyline id="t" points="0 0 $w $h"/>', "path": '<path id="t" d="M 0 0 h $w v $h"/>'}[form]
+            tw = {"polygon": f'<polygon points="0 0 {W} 0 3 {H}"', "polyline": f'<polyline points="0 0 {W} {H}"', "path": f'<path d="M 0 0 h {W} v {H}"'}[form]
+            d0 = f'<svg><specs>{tm}</specs><reuse href="#t" w="{W}" h="{H}" x="{X}" y="{Y}"/><reuse href="#t" w="{W}" h="{H}" x="{X}"/></svg>'
+            d1 = f'<svg>{tw} transform="translate({X}, {Y})" class="t"/>{tw} transform="translate({X}, 0)" class="t"/></svg>'
+        elif form == "class-rebinding":
+            d0 = f'<svg><var k="1"/><specs><rect id="t" wh="$w $h"/></specs><reuse href="#t" class="lvl-$k" k="{{{{$k + 1}}}}" w="{W}" h="{H}" x="{X}" y="{Y}"/></svg>'
+            d1 = f'<svg><rect xy="{X} {Y}" wh="{W} {H}" class="lvl-1 t"/></svg>'
+        else:
+            d0 = (f'<svg><var k="10"/><specs><rect id="t" wh="$w $h"/></specs><loop count="2" loop-var="n"><reuse href="#t" class="from-$k" k="{{{{$k + $n + 1}}}}" w="{W}" h="{H}" x="{X}" y="{{{{$n * 20}}}}"/></loop></svg>')
+            d1 = f'<svg><rect xy="{X} 0" wh="{W} {H}" class="from-10 t"/><rect xy="{X} 20" wh="{W} {H}" class="from-10 t"/></svg>'
+        inst_vars.append(list(range(kw, len(vars_))))
     elif fam == "reuse-forms":
         kw = alloc([(6, *S), (4, *S)])
         kp = alloc([(30, *V), (-9, *V)])
@@ -445,6 +466,12 @@ def build(td, wrong=False):
         o0, o1 = Out(r.docs[0]["output"]), Out(r.docs[1]["output"])
         obls = []
         obls.append(Obl("specs-not-rendered", PASS if not o0.by_tag("specs") and not o0.by_tag("reuse") else FAIL, ground=True))
+        if fam == "reuse-forms2":
+            for o in (o0, o1):
+                for tg in ("polygon", "polyline", "path"):
+                    for g in o.by_tag(tg):
+                        if g.get("transform") is None:
+                            g.set("transform", "translate(0, 0)")
         if fam in ("group", "symbol", "groupfixed", "nested", "empty-binding", "groupgen"):
             # a group without a transform is a group translated by (0, 0): compared as such
             for o in (o0, o1):
